@@ -171,7 +171,8 @@ def run_split(case):
     d = os.path.join(tmpdir(), "c17split")
     shutil.rmtree(d, ignore_errors=True)
     os.makedirs(d)
-    wavfn = os.path.join(d, "rec.wav")
+    stem = case.get("stem", "rec")
+    wavfn = os.path.join(d, stem + ".wav")
     write_wav(wavfn, samples, width, rate)
     dur = n / rate
     # target tier from on-grid index pairs
@@ -185,7 +186,7 @@ def run_split(case):
     tg.addTier(p.IntervalTier("sec", [p.Interval(*e) for e in sec], 0, dur))
     pts = [[i / rate, lab] for (i, lab) in case["points"]]
     tg.addTier(p.PointTier("pts", [p.Point(*e) for e in pts], 0, dur))
-    tgfn = os.path.join(d, "rec.TextGrid")
+    tgfn = os.path.join(d, stem + ".TextGrid")
     with quiet():
         tg.save(tgfn, "long_textgrid", True)
     out = os.path.join(d, "out")
@@ -205,11 +206,11 @@ def run_split(case):
     width_digits = int(math.floor(math.log10(len(ents)))) + 1
     for k, ((i, j, lab), (rs, re_, rname)) in enumerate(zip(case["entries"], res)):
         if style == "append_no_i":
-            base = f"rec_{lab}"
+            base = f"{stem}_{lab}"
         elif style == "label":
             base = lab
         else:
-            base = "rec_%0*d" % (width_digits, k)
+            base = stem + "_%0*d" % (width_digits, k)
             if style == "append":
                 base += f"_{lab}"
         if rname != base + ".wav":
@@ -276,6 +277,8 @@ def run_split(case):
             raise Violation("file-samples", f"extractSubwav({i}/{rate},{j}/{rate}) does not hold samples [{i}:{j}]")
     shutil.rmtree(d, ignore_errors=True)
     cl.add(f"style_{style}")
+    if "." in stem or any("." in e[2] for e in case["entries"]):
+        cl.add("dot_in_names")
     return {"classes": sorted(cl), "nontrivial": True}
 
 
@@ -352,7 +355,7 @@ def split_cases(draw):
         k = draw(st.integers(1, maxk))
         cuts = sorted(draw(st.lists(st.integers(0, n), min_size=2 * k, max_size=2 * k, unique=True)))
         return [[cuts[2 * i], cuts[2 * i + 1], labels[i]] for i in range(k)]
-    entries = tier(4, ["w0", "w1", "w2", "w3"])
+    entries = tier(4, draw(st.sampled_from([["w0", "w1", "w2", "w3"], ["w0", "w1", "w2", "w3"], ["no.1", "no.2", "no.3", "a.b.c"]])))
     secondary = tier(5, ["s0", "s1", "s2", "s3", "s4"]) if draw(st.booleans()) else []
     pts = [[i, f"p{q}"] for q, i in enumerate(sorted(draw(st.lists(st.integers(0, n), max_size=4, unique=True))))]
     return {"width": width, "rate": rate, "samples": samples, "entries": entries, "secondary": secondary, "points": pts,
@@ -361,7 +364,8 @@ def split_cases(draw):
             "nopartial": draw(st.booleans()),
             # an entry lying between two sample positions (it holds no sample position); a second run into a folder
             # that still holds the pieces of an earlier run over other audio
-            "tiny": draw(st.integers(0, 2)) == 0, "rerun": draw(st.integers(0, 2)) == 0}
+            "tiny": draw(st.integers(0, 2)) == 0, "rerun": draw(st.integers(0, 2)) == 0,
+            "stem": draw(st.sampled_from(["rec", "rec", "rec.v2"]))}  # dots in file names and labels are part of the name
 
 
 @st.composite
